@@ -77,7 +77,8 @@ class RawX12File(object):
             (line, self.buffer) = self.buffer.split(self.seg_term, 1)
             line = line.lstrip('\n\r')
             if line == '':
-                break
+                # empty segment (two adjacent terminators): skip it, keep reading
+                continue
             yield(line)
 
     def get_term(self):
